@@ -71,7 +71,7 @@ def judge(ctx, log, label):
 def run(ctx):
     ctx.rule = ("(a) exhaustive TLC search of MidiMapper.tla (2 addresses x coarse/fine, 3 controllers, 2-valued halves, 6 API operations, unbounded delivery "
                 "interleavings) for the repaired design, the implemented design without stray binds, the implemented design, and 2 mutants; "
-                "(b) TLC-simulated behaviours with V=128, 4 addresses, 6 controllers replayed on the real objects; (c) seeded random histories with random "
+                "(b') directed histories (coarse + fine controllers per address, values, then another address unmapped or re-learned, more values); (b) TLC-simulated behaviours with V=128, 4 addresses, 6 controllers replayed on the real objects; (c) seeded random histories with random "
                 "delivery laziness; evaluations = steps validated; non-trivial = history in which a bound controller produced >= 2 parameter messages")
     ctx.assumptions = ["parameter ports: /p int 0..127, /q int -64..63, /r float -2.5..10.25, /s float 0..1",
                        "value rule judged: inside [min,max], type of the parameter, monotone in the 14-bit controller value (not the exact scaling)",
@@ -126,6 +126,45 @@ def run(ctx):
     ctx.driver("midi_driver", "asan", ["replay", ctx.path("steps.ndjson"), ctx.path("logA.ndjson")])
     recs = judge(ctx, ctx.path("logA.ndjson"), "simulated")
     ctx.notes["simulated_behaviours"] = len(recs)
+    # engine A': directed histories around the 14-bit values: addresses with a coarse AND a fine controller, values on both halves, then another
+    # address is unmapped / re-learned / everything re-bound, then more values - the halves of the untouched addresses must survive
+    import random
+    rng = random.Random(ctx.seed + 20)
+    with open(ctx.path("scen.ndjson"), "w") as f:
+        for i in range(3000 if thorough else 400):
+            addrs = rng.sample(["/p", "/q", "/r", "/s"], rng.randint(2, 4))
+            ids = list(range(1, 13)); rng.shuffle(ids)
+            steps, bound = [], {}
+            def learn(a, coarse):
+                cid = ids.pop()
+                steps.extend([dict(op="map", a=a, coarse=coarse), dict(op="drain"), dict(op="cc", id=cid, v=rng.randrange(128)), dict(op="drain")])
+                bound.setdefault(a, {})[coarse] = cid
+            for a in addrs:
+                learn(a, True)
+                if rng.random() < 0.7:
+                    learn(a, False)
+            def play(n):
+                for _ in range(n):
+                    a = rng.choice(list(bound)); c = rng.choice(list(bound[a]))
+                    steps.append(dict(op="cc", id=bound[a][c], v=rng.choice([0, 1, 63, 64, 100, 127, rng.randrange(128)])))
+            play(rng.randint(2, 8))
+            victim = rng.choice(addrs[:-1])                      # not the last learned: later entries shift
+            kind = rng.random()
+            if kind < 0.6:
+                c = rng.choice(list(bound[victim])); steps.extend([dict(op="unmap", a=victim, coarse=c), dict(op="drain")]); del bound[victim][c]
+                if not bound[victim]:
+                    del bound[victim]
+            else:
+                c = rng.choice(list(bound[victim])); del bound[victim][c]
+                if not bound[victim]:
+                    del bound[victim]
+                learn(victim, c)
+            if bound:
+                play(rng.randint(3, 10))
+            f.write(json.dumps(steps) + "\n")
+    ctx.driver("midi_driver", "asan", ["replay", ctx.path("scen.ndjson"), ctx.path("logS.ndjson")])
+    recsS = judge(ctx, ctx.path("logS.ndjson"), "directed")
+    ctx.notes["directed_histories"] = len(recsS)
     # engine B
     ctx.driver("midi_driver", "asan", ["random", ctx.seed, 30000 if thorough else 3000, ctx.path("logB.ndjson")])
     recs2 = judge(ctx, ctx.path("logB.ndjson"), "random")
